@@ -1,6 +1,7 @@
 (* OCaml driver for the extracted book-graph model and equation checker (C19).
    Reads the output of harness/bookgraph_harness.cpp on stdin: concrete operations are applied to
-   the extracted model; every state dump ("S n" + n node lines) of the C++ book is
+   the extracted model; every state dump ("S n k x" + the k changed node lines + x removed hashes:
+   the complete state of all n nodes, nodes unchanged since the previous dump are not repeated) is
      (a) compared field by field with the model state, and
      (b) checked against the extracted defining equations (Equations.check_all) -- this part
          never looks at the model state.
@@ -58,9 +59,11 @@ let hex_to_bytes s =
   List.init n (fun i -> n_of_int (int_of_string ("0x" ^ String.sub s (2 * i) 2)))
 let bytes_to_hex l = String.concat "" (List.map (fun b -> Printf.sprintf "%02x" (int_of_n b)) l)
 
-(* ---- C++ state as a [book] value ---- *)
-let parse_state root pending (lines : string list) : book =
-  let keys = ref [] and im = ref nempty and cm = ref nempty and pm = ref nempty and dm = ref nempty and sm = ref nempty in
+(* ---- C++ state as a [book] value, maintained from the incremental dumps ---- *)
+let update_state (prev : book) root pending (changed : string list) (removed : string list) : book =
+  let im = ref prev.bk_info and cm = ref prev.bk_children and pm = ref prev.bk_parents
+  and dm = ref prev.bk_depth and sm = ref prev.bk_sc in
+  let newkeys = ref [] in
   List.iter (fun line ->
       let c = { toks = split line } in
       let h = next_n c in
@@ -71,12 +74,22 @@ let parse_state root pending (lines : string list) : book =
       let tm = nstr (next c) in let st = n_of_int (next_int c) in
       let nch = next_int c in let ch = pairs_mh c nch in
       let npar = next_int c in let pa = pairs_mh c npar in
-      keys := h :: !keys;
+      (match nget h !im with None -> newkeys := h :: !newkeys | Some _ -> ());
       im := nset h { ni_addr = N0; ni_move = mv; ni_score = sc; ni_time = tm; ni_state = st } !im;
       cm := nset h ch !cm; pm := nset h pa !pm; dm := nset h d !dm;
-      sm := nset h { s_nm = nm; s_ecw = ecw; s_ecb = ecb; s_pew = pew; s_peb = peb } !sm) lines;
-  { bk_root = root; bk_keys = !keys; bk_info = !im; bk_children = !cm; bk_parents = !pm; bk_depth = !dm;
-    bk_sc = !sm; bk_pending = pending; bk_err = N0 }
+      sm := nset h { s_nm = nm; s_ecw = ecw; s_ecb = ecb; s_pew = pew; s_peb = peb } !sm) changed;
+  let keys = !newkeys @ prev.bk_keys in
+  if removed = [] then
+    { bk_root = root; bk_keys = keys; bk_info = !im; bk_children = !cm; bk_parents = !pm; bk_depth = !dm;
+      bk_sc = !sm; bk_pending = pending; bk_err = N0 }
+  else begin
+    (* nodes disappeared (only after a read of a damaged file): rebuild the maps without them *)
+    let gone = List.map nstr removed in
+    let keys = List.filter (fun k -> not (List.mem k gone)) keys in
+    let pick m = List.fold_left (fun acc k -> match nget k m with Some v -> nset k v acc | None -> acc) nempty keys in
+    { bk_root = root; bk_keys = keys; bk_info = pick !im; bk_children = pick !cm; bk_parents = pick !pm;
+      bk_depth = pick !dm; bk_sc = pick !sm; bk_pending = pending; bk_err = N0 }
+  end
 
 let cmp_pair (m1, h1) (m2, h2) =
   let c = compare (int_of_n m1) (int_of_n m2) in
@@ -86,10 +99,9 @@ let links_str l = String.concat "," (List.map (fun (m, h) -> string_of_int (int_
 
 (* first difference between model and C++ state, or None *)
 let compare_states (m : book) (c : book) : string option =
-  let sortk l = List.sort (fun a b -> Int64.unsigned_compare (int64_of_n a) (int64_of_n b)) l in
-  let mk = sortk m.bk_keys and ck = sortk c.bk_keys in
-  if mk <> ck then
-    Some (Printf.sprintf "keys:model=%d,cpp=%d" (List.length mk) (List.length ck))
+  let ck = c.bk_keys in
+  if List.length m.bk_keys <> List.length ck || List.exists (fun h -> not (has_node m h)) ck then
+    Some (Printf.sprintf "keys:model=%d,cpp=%d" (List.length m.bk_keys) (List.length ck))
   else begin
     let res = ref None in
     let zi z = string_of_int (int_of_z z) in
@@ -199,8 +211,12 @@ let () =
           | "ERROR" -> flags := "harness-error" :: !flags
           | "S" ->
             let n = next_int c in
-            let lines = List.init n (fun _ -> input_line stdin) in
-            let cpp = parse_state !root !pending lines in
+            let k = next_int c in let x = next_int c in
+            let lines = List.init k (fun _ -> input_line stdin) in
+            let removed = List.init x (fun _ -> String.trim (input_line stdin)) in
+            let base = match !prev with Some p when !opname <> "NEW" -> p | _ -> empty_book !root in
+            let cpp = update_state base !root !pending lines removed in
+            if List.length cpp.bk_keys <> n then flags := "dump-count-mismatch" :: !flags;
             let m = if !model.bk_err <> N0 then Some ("modelerr=" ^ string_of_n !model.bk_err) else compare_states !model cpp in
             let missing = List.filter (fun (p, m, ch) ->
                 not (List.exists (fun (m', c') -> m' = m && c' = ch) (children cpp p) &&
